@@ -168,7 +168,8 @@ impl VmStateIterator {
             memory: self.chiplets.get_mem_state_at(ctx, self.clk),
         });
 
-        self.clk -= 1;
+        // the cursor stays on the first row when the beginning of the trace has been reached
+        self.clk = self.clk.saturating_sub(1);
 
         result
     }
